@@ -22,6 +22,7 @@ type c12Case struct {
 	Levels []string `json:"ref_levels"`
 	Seq    []int    `json:"payloads"`
 	Name   string   `json:"logger_name"`
+	LLevel string   `json:"logger_level"`
 }
 
 func init() {
@@ -46,17 +47,24 @@ func init() {
 					for _, s := range seqs {
 						yield(c12Case{Kind: k, Levels: lv, Seq: s, Name: "c12named"})
 					}
+					// the logger's own level range (also one disjoint from a reference's range) must not matter
+					for _, ll := range []string{"WARN", "TRACE~INFO", "ERROR", "PANIC~PANIC"} {
+						yield(c12Case{Kind: k, Levels: lv, Seq: []int{1, 2}, Name: "c12named", LLevel: ll})
+					}
 				}
 			}
 			yield(c12Case{Kind: "Logger", Levels: []string{""}, Seq: []int{1}, Name: "someOtherName"})
 		},
 		func(c c12Case) (string, []Violation, int) {
 			confReset()
-			key := fmt.Sprintf("%s refs=%q payloads=%v", c.Kind, c.Levels, c.Seq)
+			key := fmt.Sprintf("%s level=%q refs=%q payloads=%v", c.Kind, c.LLevel, c.Levels, c.Seq)
 			typ, layout, _ := strings.Cut(c.Kind, "+")
 			conf := map[string]string{"appender.unused.type": "Discard", "logger." + c.Name + ".type": typ, "logger." + c.Name + ".tags": "_vfx_*"}
 			if layout != "" {
 				conf["logger."+c.Name+".layout.type"] = "JSONLayout"
+			}
+			if c.LLevel != "" {
+				conf["logger."+c.Name+".level"] = c.LLevel
 			}
 			if typ == "AsyncLogger" {
 				conf["logger."+c.Name+".bufferSize"] = "100"
